@@ -316,3 +316,75 @@ Definition it_to_rule (rm : it_rule * bool) : tc_rule T :=
   mk_rule (map reg (ir_names (fst rm))) (ir_pids (fst rm)) (snd rm).
 End ITSem.
 Arguments it_to_rule {T}.
+
+(* ------------------------------------------------------------------------------------- *)
+(* a transaction: phases of rules over variables whose content changes                     *)
+(* (rule.go doEvaluate's loops over r.variables and over GetField's result; rulegroup.go    *)
+(*  Eval per phase).  The content of a variable is whatever GetField returns at the moment  *)
+(*  the rule runs: it differs from phase to phase (REQUEST_BODY, ARGS after the body is     *)
+(*  parsed, RESPONSE_xxx) and from rule to rule (MATCHED_VAR, RULE, ENV, counts).             *)
+(* ------------------------------------------------------------------------------------- *)
+Section TX.
+Variable T : Type.
+Variable tf : T -> bytes -> tres.
+
+Record tc_txrule := mk_txrule { x_rule : tc_rule T; x_vars : list nat }.
+(* variable -> list of (pointer identity of the key string, value), in GetField's order *)
+Definition tc_content := nat -> list (nat * bytes).
+
+(* for i, arg := range values { r.transformArg(arg, i, cache) } *)
+Fixpoint tc_args_calls (r : tc_rule T) (v : nat) (l : list (nat * bytes)) (i : nat) : list (tc_call T) :=
+  match l with
+  | [] => []
+  | (kid, val) :: rest => mk_call r (mk_arg v kid val) i :: tc_args_calls r v rest (S i)
+  end.
+
+(* for _, v := range r.variables { values = tx.GetField(v); ... } *)
+Definition tc_rule_calls (x : tc_txrule) (content : tc_content) : list (tc_call T) :=
+  flat_map (fun v => tc_args_calls (x_rule x) v (content v) 0) (x_vars x).
+
+(* a phase: its rules in order, each with the content of the variables when it runs *)
+Definition tc_txphase := list (tc_txrule * tc_content).
+Definition tc_phase_calls (p : tc_txphase) : list (tc_call T) :=
+  flat_map (fun xc => tc_rule_calls (fst xc) (snd xc)) p.
+
+(* design space around the code in /repo (clear_each = true, fixed = nothing):
+   fixed v = true  : lookups for variable v accept an entry by its key alone
+   clear_each = false : the cache is emptied by the first phase of the transaction only *)
+Definition tc_transform_arg_fx (fixed : nat -> bool) (r : tc_rule T) (a : tc_arg) (idx : nat) (st : tc_state T) :=
+  tc_transform_arg_gen T tf (negb (fixed (a_var a))) true r a idx st.
+
+Fixpoint tc_eval_calls_fx (fixed : nat -> bool) (cs : list (tc_call T)) (st : tc_state T)
+  : list (list bytes * list T) * tc_state T :=
+  match cs with
+  | [] => ([], st)
+  | c :: r =>
+    let '(vs, es, st') := tc_transform_arg_fx fixed (c_rule c) (c_arg c) (c_idx c) st in
+    let '(outs, st'') := tc_eval_calls_fx fixed r st' in
+    ((vs, es) :: outs, st'')
+  end.
+
+Fixpoint tc_eval_tx_gen (clear_each : bool) (fixed : nat -> bool) (first : bool) (ps : list tc_txphase)
+                        (st : tc_state T) : list (list (list bytes * list T)) * tc_state T :=
+  match ps with
+  | [] => ([], st)
+  | p :: r =>
+    let st0 := if clear_each || first then tc_phase_start T st else st in
+    let '(o, st') := tc_eval_calls_fx fixed (tc_phase_calls p) st0 in
+    let '(os, st'') := tc_eval_tx_gen clear_each fixed false r st' in
+    (o :: os, st'')
+  end.
+
+Definition tc_no_fixed (v : nat) : bool := false.
+(* the variables seed g exempts from the input check: variables.RequestBody, variables.ResponseBody *)
+Definition tc_body_fixed (v : nat) : bool := Nat.eqb v 21 || Nat.eqb v 29.
+(* the transaction as /repo evaluates it *)
+Definition tc_eval_tx (ps : list tc_txphase) (st : tc_state T) := tc_eval_tx_gen true tc_no_fixed true ps st.
+
+(* what every rule must see: its own list applied to the content at the moment it runs *)
+Definition tc_uncached_tx (ps : list tc_txphase) : list (list (list bytes * list T)) :=
+  map (fun p => tc_uncached_calls T tf (tc_phase_calls p)) ps.
+End TX.
+Arguments mk_txrule {T}.
+Arguments x_rule {T}.
+Arguments x_vars {T}.
